@@ -111,7 +111,7 @@ type c12Round struct {
 func c12(ctx *core.Ctx) {
 	quietLogs()
 	defer restful.EnableTracing(false)
-	ctx.Rule("rounds of W mutator goroutines (each owns one WebService key /k<i>: Add/Remove of a fresh WebService, and one route key /d<i>/r/{id:regex}: Route/RemoveRoute on its own dynamic-routes service (empty whenever the route is withdrawn) and a third key /dyn/s<i>/{id:regex} on the dynamic-routes service all mutators share, and a fourth key /mk<i>/r whose single route changes its method M<gen> with every generation (read off the Allow header of a 405), each generation with another regular expression; an OPTIONS filter and 0-5 further container filters are installed, every service has a filter of its own (each 200 answer must carry exactly its own chain) and readers also send OPTIONS; Remove and RemoveRoute are now and then repeated for something no longer registered; handlers return a unique generation) and R reader goroutines probing dynamic and stable URLs; both routers x {ServeHTTP, Dispatch}; every fourth round with trace logging on; yields injected through If-conditions (inside the read-locked selection) and a container filter. Monitors: Go race detector; client-boundary history {op, key, gen, call, return} checked by porcupine per key against a register over {absent, gen}; stable URLs must always get their fixed answer; panics; blocked-goroutine state detector. Non-trivial = a read that overlapped a write of its own key; distinct by (round configuration, key, observed value class).")
+	ctx.Rule("rounds of W mutator goroutines (each owns one WebService key /k<i>: Add/Remove of a fresh WebService, and one route key /d<i>/r/{id:regex}: Route/RemoveRoute on its own dynamic-routes service (empty whenever the route is withdrawn) and a third key /dyn/s<i>/{id:regex} on the dynamic-routes service all mutators share, and a fourth key /mk<i>/r whose single route changes its method M<gen> with every generation (read off the Allow header of a 405), each generation with another regular expression; an OPTIONS filter and 0-5 further container filters are installed, every service has a filter of its own (each 200 answer must carry exactly its own chain) and readers also send OPTIONS; Remove and RemoveRoute are now and then repeated for something no longer registered; handlers return a unique generation) and R reader goroutines probing dynamic and stable URLs; both routers x {ServeHTTP, Dispatch}; every fourth round with trace logging on; in half of the rounds panic recovery is on and a stable route has an If-condition that panics for marked requests (readers send some); yields injected through If-conditions (inside the read-locked selection) and a container filter. Monitors: Go race detector; client-boundary history {op, key, gen, call, return} checked by porcupine per key against a register over {absent, gen}; stable URLs must always get their fixed answer; panics; blocked-goroutine state detector. Non-trivial = a read that overlapped a write of its own key; distinct by (round configuration, key, observed value class).")
 	ctx.Assume("schedules are not reproducible: evidence reports the overlap actually observed", "a porcupine timeout is inconclusive, never a violation")
 	rounds := ctx.N(64, 6000)
 	var totalOps, totalOverlap, partitions int
@@ -164,6 +164,19 @@ func c12(ctx *core.Ctx) {
 				resp.WriteHeader(200)
 				resp.Write([]byte(body))
 			}))
+		}
+		faulty := ri%4 == 1 || ri%4 == 2
+		if faulty {
+			// an application whose If-condition panics for some requests, with panic recovery switched on: whatever the answer to
+			// such a request is, route selection must not stay "in progress" for ever after - registration goes on
+			c.DoNotRecover(false)
+			c.RecoverHandler(func(v interface{}, w http.ResponseWriter) { w.WriteHeader(500) })
+			stable.Route(stable.GET("/faulty").If(func(r *http.Request) bool {
+				if r.Header.Get("X-Fault") != "" {
+					panic("condition panics")
+				}
+				return true
+			}).To(func(req *restful.Request, resp *restful.Response) { resp.Write([]byte("faulty")) }))
 		}
 		c.Add(stable)
 		dyn := new(restful.WebService).Path("/dyn")
@@ -418,6 +431,11 @@ func c12(ctx *core.Ctx) {
 						}
 						hist.add(porcupine.Operation{ClientId: client, Input: regIn{key, opRead, 0}, Call: call, Output: val, Return: ret})
 					default:
+						if faulty && n%23 == 7 {
+							req := rt.Req{Method: "GET", Path: "/stable/faulty", Hdr: map[string]string{"X-Fault": "1"}}
+							rt.Run(c, rd.Entry, &req) // the answer is not C12's business
+							ctx.Count("requests_whose_condition_panicked", 1)
+						}
 						i := n % 3
 						path, want := fmt.Sprintf("/stable/s%d", i), fmt.Sprintf("stable-%d", i)
 						if k == 3*rd.Mutators+1 {
